@@ -176,8 +176,34 @@ pub fn value_prog<'a, I: Kind<'a> + ValueInput<'a>, E: ErrTy<'a, I>>(ins: &[Ins]
     custom(move |inp: &mut InputRef<'a, '_, I, X<E>>| {
         let start = inp.cursor();
         let mut saved = None;
+        let mut seen: Vec<Val> = vec![];
         for i in &ins {
             match i {
+                Ins::NextMaybe => {
+                    if inp.next_maybe().is_none() {
+                        return Err(E::user(inp.span_since(&start), "cu"));
+                    }
+                }
+                Ins::PeekMaybe(c) => {
+                    if inp.peek_maybe().map(|t| t.ch()) != Some(*c) {
+                        return Err(E::user(inp.span_since(&start), "cu"));
+                    }
+                }
+                Ins::SpanSince => {
+                    let sp = match &saved {
+                        Some(cp) => {
+                            let cp: &chumsky::input::Checkpoint<'a, '_, I, _> = cp;
+                            inp.span_since(cp.cursor())
+                        }
+                        None => inp.span_since(&start),
+                    };
+                    seen.push(span_val(&sp));
+                }
+                Ins::State => {
+                    let n = inp.state().count;
+                    seen.push(Val::I(n as i64));
+                }
+                Ins::Ctx => seen.push(inp.ctx().clone()),
                 Ins::Next => {
                     if inp.next().is_none() {
                         return Err(E::user(inp.span_since(&start), "cu"));
@@ -204,7 +230,8 @@ pub fn value_prog<'a, I: Kind<'a> + ValueInput<'a>, E: ErrTy<'a, I>>(ins: &[Ins]
                 }
             }
         }
-        Ok(span_val(&inp.span_since(&start)))
+        let fin = span_val(&inp.span_since(&start));
+        Ok(if seen.is_empty() { fin } else { Val::p(Val::L(seen), fin) })
     })
     .bxd()
 }
